@@ -133,7 +133,7 @@ impl<'a> Acc<'a> {
 
     fn replay_dir(&mut self, tag: &str) -> PathBuf {
         self.replay_seq += 1;
-        let d = verif_root().join("replays").join(format!(
+        let d = std::env::var("OALV_REPLAYS").map(PathBuf::from).unwrap_or_else(|_| verif_root().join("replays")).join(format!(
             "{}-{}-s{}-{}-{}",
             self.ctx.id, self.ctx.tier, self.ctx.seed, tag, self.replay_seq
         ));
@@ -241,6 +241,13 @@ impl<'a> Acc<'a> {
                 self.inconclusive.push(format!("{workload}: case {idx} did not finish"));
             }
         }
+        if r.dropped_after_limit > 0 && r.hangs.is_empty() && r.crashes.is_empty() {
+            self.inconclusive.push(format!(
+                "{workload}: {} cases were not run after {} watchdog suspects that finished in isolation",
+                r.dropped_after_limit,
+                r.slow_cases.len()
+            ));
+        }
         for e in &r.harness_errors {
             self.inconclusive.push(format!("{workload}: {e}"));
         }
@@ -321,7 +328,8 @@ impl<'a> Acc<'a> {
             "wall_s": self.t0.elapsed().as_secs_f64(),
             "violations": self.found.len(),
         });
-        let evdir = verif_root().join("evidence");
+        // OALV_EVIDENCE: evidence of runs against a mutated scratch copy must not overwrite the real one.
+        let evdir = std::env::var("OALV_EVIDENCE").map(PathBuf::from).unwrap_or_else(|_| verif_root().join("evidence"));
         let _ = std::fs::create_dir_all(&evdir);
         let path = evdir.join(format!("{}.json", self.ctx.id));
         if let Err(e) = std::fs::write(&path, serde_json::to_string_pretty(&ev).unwrap()) {
